@@ -18,7 +18,7 @@ var tableLock = core.LockSpec{Type: "Table", Field: "mutex"}
 func c07(c *Ctx) {
 	p, r := c.P, c.R
 	r.Technique = "who-may-write inventory of the table's fields over SSA; interprocedural lock-held dataflow; must-pass-through (cut) checks for size, IP-limit and pairing gates; interval check of the distance-to-bucket mapping"
-	r.Explanation = "Decides structural necessary conditions of the routing-table invariants: (R1) every write to bucket.entries / bucket.replacements / tableNode.Node / liveness fields and every IP-set update happens with Table.mutex held on every call path from every entry point; (R2) every growth of entries is guarded by len(entries) < 16 or follows a removal on the same path, replacements grow only through a push bounded by the constant 10, IP limits are the constants 2 per bucket and 10 per table on /24; (R3) the insertion of a new node passes the self-id test, the not-already-present test, a successful IP-limit reservation for that node's address, and uses the bucket derived from that node's id; every node displaced from replacements gives its IP back; every record replacement re-checks the IP limits unless the IP is unchanged; (R4) the distance-to-bucket mapping stays inside the bucket array for all distances 0..256 and all its callers pass such distances; (R5) every insertion into entries is followed by registration with the revalidation lists and every removal by deregistration and IP release. Not decided: the invariants as facts about reachable states; schedules beyond lock discipline."
+	r.Explanation = "Decides structural necessary conditions of the routing-table invariants: (R1) every write to bucket.entries / bucket.replacements / tableNode.Node / liveness fields and every IP-set update happens with Table.mutex held on every call path from every entry point; (R2) every growth of entries is guarded by len(entries) < 16 or follows a removal on the same path, replacements grow only through a push bounded by the constant 10, IP limits are the constants 2 per bucket and 10 per table on /24; (R3) the insertion of a new node passes the self-id test, the not-already-present test, a successful IP-limit reservation for that node's address, and uses the bucket derived from that node's id; every node displaced from replacements gives its IP back; every record replacement re-checks the IP limits unless the IP is unchanged; (R4) the distance-to-bucket mapping stays inside the bucket array for all distances 0..256 and all its callers pass such distances; (R5) every insertion into entries is followed by registration with the revalidation lists and every removal by deregistration and IP release. The reserving function is all-or-nothing per path: a refusal leaves the table-wide and the per-bucket /24 counter as they were, an admission raises each touched counter by one, and no counter is decremented that was not incremented on that path. Not decided: the invariants as facts about reachable states; schedules beyond lock discipline."
 	r.Assumptions = []string{
 		"netutil.DistinctNetSet enforces Limit per Subnet (dependency contract)",
 		"enode.LogDist returns a value in [0,256]",
@@ -489,6 +489,7 @@ func c07(c *Ctx) {
 
 	// ---------------- R4 mapping distance -> bucket
 	c07mapping(c)
+	c07IPBalance(c, m)
 	errorsExamined(c, "R7.errors-examined", "routing table", []string{"portalwire"}, "(*portalwire.Table).", "(*portalwire.tableRevalidation).", "(*portalwire.bucket).", "(*portalwire.revalidationList).")
 }
 
